@@ -2,10 +2,12 @@
    Two layers (Model/Puml.v): lexical ([lex_line] : text line -> pline, [slice_tags], [parse_text])
    and semantic ([parse_lines] : list pline -> components x relation).  The semantic theorems hold for
    every list of lines; the lexical layer is tied to the real parser by correspondence on printed diagrams
-   and checked here on every documented line form by evaluation (theorem C06_lexical_forms - partial:
-   one instance per form, not universally quantified over names; see DESIGN 5/C06). *)
+   and proved here for every documented line form and EVERY component name / alias / arrow label
+   (C06_lex_*: tokens separated by single blanks; [is_name]: non-empty, word characters and dots).
+   Still partial: runs of blanks / indentation and the tag slicing are covered by evaluation on instances
+   (C06_lexical_forms_partial) and by correspondence only. *)
 From Coq Require Import List Bool NArith Permutation.
-From PTA Require Import Sx Names Search Label Puml LabelProofs DiagramProofs.
+From PTA Require Import Sx Names Search Label Puml LabelProofs DiagramProofs PumlLexProofs.
 Import ListNotations.
 
 (* exactly the dependor -> dependee relation drawn, each end resolved through the alias table,
@@ -40,6 +42,31 @@ Theorem C06_order_independent : forall ls ls',
   (forall e, In e (snd (parse_lines ls)) <-> In e (snd (parse_lines ls'))).
 Proof. exact parse_lines_order_independent. Qed.
 Print Assumptions C06_order_independent.
+
+(* ---- lexical layer, all names ----
+   [br n] = "[n]", [unwords] joins tokens with single blanks, [ref_form n t]: t is "[n]" or the bare n,
+   [arrow_form dir t]: t is "-->", "-text->", "->" (dir = true: dependor on the left) or "<--", "<-text-", "<-". *)
+Theorem C06_lex_decl_bracket : forall n, is_name n = true -> lex_line (unwords [br n]) = PDecl n None.
+Proof. exact lex_decl_bracket. Qed.
+Print Assumptions C06_lex_decl_bracket.
+Theorem C06_lex_decl_component : forall n, is_name n = true -> lex_line (unwords [COMPONENT; n]) = PDecl n None.
+Proof. exact lex_decl_component. Qed.
+Print Assumptions C06_lex_decl_component.
+Theorem C06_lex_decl_component_bracket : forall n, is_name n = true -> lex_line (unwords [COMPONENT; br n]) = PDecl n None.
+Proof. exact lex_decl_component_bracket. Qed.
+Print Assumptions C06_lex_decl_component_bracket.
+Theorem C06_lex_decl_alias : forall n a, is_name n = true -> is_name a = true -> lex_line (unwords [br n; AS; a]) = PDecl n (Some a).
+Proof. exact lex_decl_alias. Qed.
+Print Assumptions C06_lex_decl_alias.
+Theorem C06_lex_decl_component_alias : forall n a, is_name n = true -> is_name a = true ->
+  lex_line (unwords [COMPONENT; br n; AS; a]) = PDecl n (Some a).
+Proof. exact lex_decl_component_alias. Qed.
+Print Assumptions C06_lex_decl_component_alias.
+Theorem C06_lex_arrow : forall x y tx ty dir ar,
+  is_name x = true -> is_name y = true -> ref_form x tx -> ref_form y ty -> arrow_form dir ar ->
+  lex_line (unwords [tx; ar; ty]) = if dir then PArrow x y else PArrow y x.
+Proof. exact lex_arrow. Qed.
+Print Assumptions C06_lex_arrow.
 
 (* the lexical layer on one instance of every documented line form, dotted names included; text outside the tags
    ignored; a text without the tag pair rejected.  (Strings below are code points: "[src.a] --> [B]" etc.) *)
